@@ -3,6 +3,7 @@
 //! a behaviour) into recorded ndjson traces of the real code, or generates scripts.
 mod cycle;
 mod debug;
+mod det;
 mod ctrlauth;
 mod fb;
 mod resource;
@@ -12,6 +13,7 @@ mod parse;
 mod stbc;
 mod stcore;
 mod util;
+mod webide;
 
 fn main() {
     let args: Vec<String> = std::env::args().skip(1).collect();
@@ -21,6 +23,7 @@ fn main() {
         "cycle-gen" => cycle::gen(rest),
         "cycle-run" => cycle::run(rest),
         "debug-run" => debug::run(rest),
+        "det-child" => det::child(rest),
         "fb-gen" => fb::gen(rest),
         "fb-run" => fb::run(rest),
         "ctrlauth-gen" => ctrlauth::gen(rest), "ctrlauth-run" => ctrlauth::run(rest),
@@ -36,6 +39,7 @@ fn main() {
         "hirdb-run" => hirdb::run(rest),
         "parse-gen" => parse::gen(rest), "parse-run" => parse::run(rest),
         "stbc-gen" => stbc::gen(rest), "stbc-run" => stbc::run(rest),
+        "webide-gen" => webide::gen(rest), "webide-run" => webide::run(rest),
         _ => {
             eprintln!("usage: tpv <sub-command> ...");
             2
